@@ -11,7 +11,8 @@ package xreq
 //@   lock Mutex level 20
 //@   guarded_by Mutex: closed recvQ sendQ sizeQ recvExpire sendExpire sendQLen recvQLen bestEffort
 //@   immutable: closeQ
-//@   elem_invariant recvQ: !shared(elem)
+//@   never_closed: recvQ
+//@   elem_invariant recvQ: elem != nil && !shared(elem)
 //@
 // ---- generated option contracts (tools/gen_option_contracts.py) ----
 //@ func (*socket).SetOption
@@ -46,3 +47,7 @@ package xreq
 //@
 //@ func (*pipe).receiver
 //@   before call:close#1 assert m == nil || selidx == 2
+//@
+//@ func (*socket).OpenContext
+//@   modifies none
+//@   ensures isnil(result0) && result1 == protocol.ErrProtoOp
